@@ -79,6 +79,33 @@ def cases(rng, tier, Case):
         else:
             res.append(Case("enc %d %d %s %s" % (keep, base, hx(safe), hx(src)), "gen",
                             {"keep": keep, "base": base, "safe": hx(safe), "src": hx(src)}))
+    # safe sets built with AsciiSet::remove as well (of members and of non-members); the model and the oracle
+    # are given the resulting set by its members
+    ALNUM = b"abcdefghijklmnopqrstuvwxyzABCDEFGHIJKLMNOPQRSTUVWXYZ0123456789"
+    for _ in range(n // 5):
+        src = gen_src(rng)
+        keep = rng.choice([0, 1])
+        base = rng.choice([0, 1])
+        adds = bytes(rng.sample(range(128), rng.choice([0, 2, 6, 20])))
+        pool = list(set(adds) | (set(ALNUM) if base else set())) or [37]
+        rem = bytes([rng.choice(pool) if rng.random() < 0.4 else rng.randrange(128) for _ in range(rng.choice([1, 1, 2, 4]))] + ([37] if rng.random() < 0.3 else []))
+        if rng.random() < 0.3:
+            rem = rem + rem[:1]           # the same byte removed twice
+        eff = bytes(sorted((set(adds) | (set(ALNUM) if base else set())) - set(rem)))
+        res.append(Case("enc %d %d %s %s %s" % (keep, base, hx(adds), hx(src), hx(rem)), "removed",
+                        {"keep": keep, "base": 0, "safe": hx(eff), "src": hx(src), "_model_line": "enc %d 0 %s %s" % (keep, hx(eff), hx(src))}))
+    # different safe sets used one after the other in the same process (any per-set cache must be keyed by the whole set):
+    # sets that differ only by characters 64 code points apart, or by one member
+    for a, b in [(59, 123), (61, 125), (62, 126), (95, 31), (33, 97), (35, 99), (47, 111), (58, 122), (63, 127), (0, 64)]:
+        src = bytes([a, b, 37, a, 32, b]) + gen_src(rng)[:12].decode("utf-8", "ignore").encode()
+        for keep in (0, 1):
+            for first, second in ((a, b), (b, a)):
+                for base, extra in ((0, b""), (1, b"-_.!~*'();/?:@&=+$,#")):
+                    s1 = bytes(sorted(set(extra) - {a, b} | {first}))
+                    s2 = bytes(sorted(set(extra) - {a, b} | {second}))
+                    for sset in (s1, s2, s1):
+                        res.append(Case("enc %d %d %s %s" % (keep, base, hx(sset), hx(src)), "setpair",
+                                        {"keep": keep, "base": base, "safe": hx(sset), "src": hx(src)}))
     return res
 
 
